@@ -28,6 +28,7 @@ import (
 	"github.com/quay/claircore/libvuln/driver"
 	"github.com/quay/claircore/oracle"
 	"github.com/quay/claircore/photon"
+	"github.com/quay/claircore/pkg/ovalutil"
 	"github.com/quay/claircore/suse"
 	"github.com/quay/claircore/ubuntu"
 	"github.com/quay/claircore/updater/osv"
@@ -597,4 +598,62 @@ func osvRun(ctx context.Context, w *world) (map[string][]*claircore.Vulnerabilit
 		return nil, err
 	}
 	return runSet(ctx, w, f.UpdaterSet, noConfig)
+}
+
+// ---- aws / oracle as the update manager reaches them ----
+
+func awsUpdateinfo(as []adv) []byte {
+	var b strings.Builder
+	b.WriteString(`<?xml version="1.0" ?><updates>`)
+	for _, a := range as {
+		ver, relv := a.fixed, "1"
+		if i := strings.LastIndexByte(a.fixed, '-'); i >= 0 {
+			ver, relv = a.fixed[:i], a.fixed[i+1:]
+		}
+		fmt.Fprintf(&b, `<update author="x" from="x" status="final" type="security" version="1.4"><id>%s</id><title>t</title><issued date="2024-01-01 00:00"/><updated date="2024-01-01 00:00"/><severity>important</severity><description>generated</description><references></references><pkglist><collection short="amazon-linux"><name>Amazon Linux</name><package arch="x86_64" epoch="0" name="%s" release="%s" version="%s"><filename>f.rpm</filename></package></collection></pkglist></update>`, xmlEsc(a.id), xmlEsc(a.pkg), xmlEsc(relv), xmlEsc(ver))
+	}
+	b.WriteString(`</updates>`)
+	return []byte(b.String())
+}
+
+// awsWorld serves, per release, the mirror list at the address the release's
+// updater asks, and on the mirror repomd.xml and updateinfo.xml.gz.
+func (w *world) awsWorld(advs map[string][]adv) {
+	lists := map[string]string{
+		"AL1":    "repo.us-west-2.amazonaws.com/2018.03/updates/x86_64/mirror.list",
+		"AL2":    "cdn.amazonlinux.com/2/core/latest/x86_64/mirror.list",
+		"AL2023": "cdn.amazonlinux.com/al2023/core/mirrors/latest/x86_64/mirror.list",
+	}
+	for rel, as := range advs {
+		w.put(lists[rel], 200, "text/plain", []byte("http://aws.test/"+rel+"\n"))
+		var gz bytes.Buffer
+		zw := gzip.NewWriter(&gz)
+		zw.Write(awsUpdateinfo(as))
+		zw.Close()
+		sum := fmt.Sprintf("%x", len(gz.Bytes())) + "-" + rel
+		md := `<?xml version="1.0" encoding="UTF-8"?><repomd xmlns="http://linux.duke.edu/metadata/repo" xmlns:rpm="http://linux.duke.edu/metadata/rpm"><revision>1</revision>` +
+			`<data type="primary_db"><checksum type="sha256">aa</checksum><location href="repodata/primary.sqlite.bz2"/></data>` +
+			`<data type="updateinfo"><checksum type="sha256">` + sum + `</checksum><location href="repodata/updateinfo.xml.gz"/><timestamp>1</timestamp></data></repomd>`
+		w.put("aws.test/"+rel+"/repodata/repomd.xml", 200, "application/xml", []byte(md))
+		w.put("aws.test/"+rel+"/repodata/updateinfo.xml.gz", 200, "application/gzip", gz.Bytes())
+	}
+}
+
+// oracleYearsWorld serves one uncompressed OVAL document per year; the
+// returned configuration points the updater of each year at it.
+func (w *world) oracleYearsWorld(years map[int][]adv, from, to int) map[string]func(any) error {
+	cfgs := map[string]func(any) error{}
+	for y := from; y <= to; y++ {
+		key := fmt.Sprintf("linux.oracle.test/security/oval/com.oracle.elsa-%d.xml", y)
+		w.put(key, 200, "application/xml", ovalDoc("rpm", "Oracle Linux 0", years[y]), "etag", `"1"`)
+		url := "http://" + key
+		cfgs[fmt.Sprintf("oracle-%d-updater", y)] = func(v any) error {
+			if c, ok := v.(*ovalutil.FetcherConfig); ok {
+				c.URL = url
+				c.Compression = "none"
+			}
+			return nil
+		}
+	}
+	return cfgs
 }
